@@ -237,6 +237,10 @@ def consume(etl, view, how, k):
             out = [list(islice(iter(view), k + 1)), list(islice(iter(view), k + 1))]     # two partial passes over the same view object
         elif how == 'head':
             out = list(islice(iter(etl.head(view, k)), k + 5))
+        elif how == 'getitem-slice':
+            out = list(etl.wrap(view)[:k + 1])          # the header and k rows, asked for by slicing the table object
+        elif how == 'getitem-slice-step':
+            out = list(etl.wrap(view)[0:k + 1:1])
         elif how == 'look':
             out = repr(etl.look(view, limit=k))
         elif how == 'lookstr':
@@ -253,7 +257,7 @@ def consume(etl, view, how, k):
 
 
 # constants a consumer adds on top of the operator's own lookahead (look/see/repr read one row more to detect overflow)
-CONSUMER_C = {'islice': 0, 'islice-twice': 0, 'head': 0, 'look': 1, 'lookstr': 1, 'see': 1, 'repr': 1}
+CONSUMER_C = {'islice': 0, 'islice-twice': 0, 'head': 0, 'look': 1, 'lookstr': 1, 'see': 1, 'repr': 1, 'getitem-slice': 0, 'getitem-slice-step': 0}
 
 
 class CountingBytesIO(io.BytesIO):
@@ -346,7 +350,7 @@ def run(ctx):
     ops = catalog(etl)
     N1, N2 = 1000, 10000
     ks = list(range(0, 9))
-    hows = ['islice', 'head', 'look', 'lookstr', 'see', 'repr', 'islice-twice']
+    hows = ['islice', 'head', 'look', 'lookstr', 'see', 'repr', 'islice-twice', 'getitem-slice', 'getitem-slice-step']
 
     def measure(build, n, seed, ragged, how, k, cls=None):
         s = (cls or Src)(n, seed, ragged)
@@ -488,6 +492,32 @@ def run(ctx):
                        'addcolumn-lazy': (k, k), 'addcolumn-view': (k, k)}[name]
                 if a2 > lim[0] or b2 > lim[1]:
                     ctx.spec_fail('%s|more-than-needed' % name, '%s: pulled (%d,%d) rows for k=%d, allowed %r' % (name, a2, b2, k, lim), case)
+
+    # arguments that are not tables by name but may well be lazy views over another source (the values to select, a column to
+    # add, a lookup): putting the pipeline together reads none of them either
+    for name, mk in [('selectin(values-view)', lambda a, b: etl.selectin(a, 'a', etl.values(b, 'a'))),
+                     ('selectnotin(values-view)', lambda a, b: etl.selectnotin(a, 'a', etl.values(b, 'a'))),
+                     ('selectin(data-view)', lambda a, b: etl.selectin(a, 'a', etl.data(b))),
+                     ('selectcontains(view)', lambda a, b: etl.selectcontains(a, 'b', etl.values(b, 'b'))),
+                     ('selecteq(view)', lambda a, b: etl.selecteq(a, 'a', etl.values(b, 'a'))),
+                     ('addfield(view)', lambda a, b: etl.addfield(a, 'z', etl.values(b, 'a'))),
+                     ('convert(view-valued-dict)', lambda a, b: etl.convert(a, 'a', {1: etl.values(b, 'a')})),
+                     ('replace(view)', lambda a, b: etl.replace(a, 'a', 1, etl.values(b, 'a'))),
+                     ('update(view)', lambda a, b: etl.update(a, 'a', etl.values(b, 'a'))),
+                     ('setheader(view)', None), ('extendheader(view)', None), ('rename(view)', None)]:
+        if mk is None:
+            continue
+        a, b = TableSrc(N1, 1), TableSrc(N1, 2)
+        try:
+            mk(a, b)
+            err = None
+        except Exception as e:   # noqa
+            err = type(e).__name__
+        ctx.case((name, 'ctor-with-view-argument'))
+        ctx.count('kind:view-valued-argument')
+        if err is None and (a.pulls or b.pulls):
+            ctx.spec_fail('%s|construction-reads' % name.split('(')[0], '%s: construction pulled (%d, %d) data rows' % (name, a.pulls, b.pulls),
+                          {'pipeline': name, 'pulls': (a.pulls, b.pulls)})
 
     # asking a binary view for its header only (what fieldnames(), the *all functions, natural joins and record* set
     # operations do while a pipeline is being put together) reads no data row; the hash joins that build their lookup
